@@ -151,6 +151,8 @@ def draw_length(rng, hi=4098):
 def draw_spacing(rng):
     if rng.random() < 0.4:
         return float(rng.choice(SPECIAL))
+    if rng.random() < 0.1:
+        return int(rng.integers(1, 4))                 # a spacing typed as an integer (units in which dr or dk is 1, 2, 3)
     return float(10 ** rng.uniform(-3, 0.3))
 
 
@@ -274,7 +276,7 @@ def run_case(ctx, case):
     if case.get('kind') == 'repo_suite':
         return SUITE.run(ctx, pattern='[!C]*_test.py')       # everything but the CalcPRISM tests (17 s of solving that adds no events here)
     rng = np.random.default_rng(case['aseed'])
-    L0, sp = int(case['L']), float(case['sp'])
+    L0, sp = int(case['L']), (case['sp'] if isinstance(case['sp'], int) else float(case['sp']))
     # the number of points is often a numpy integer (len of an array, a value read from a file header): int16 / int32 / int64 carriers
     carrier = [int, int, np.int64, np.int32, np.int16][case['aseed'] % 5]
     ilen = (lambda v: carrier(v)) if (carrier is not np.int16 or max([L0] + [int(v) for o, v in case['ops'] if o == 'length']) < 32000) else int
@@ -318,7 +320,7 @@ def run_case(ctx, case):
             d = copy.deepcopy(d) if val == 'deepcopy' else (pickle.loads(pickle.dumps(d)) if val == 'pickle' else copy.copy(d))
             ctx.hook('history_continues_on_a_copy')
             continue
-        setattr(d, op, ilen(int(val)) if op == 'length' else float(val))
+        setattr(d, op, ilen(int(val)) if op == 'length' else (val if isinstance(val, int) else float(val)))
     for n_, (orig, how) in enumerate(kept):
         ctx.hook('original_after_copy_checked')
         for mech, msg in grid_invariant(orig, 'original of a %s copy' % how) + fresh_equal(orig, 'original of a %s copy' % how):
